@@ -17,13 +17,13 @@ def run(tier):
     rng = random.Random(vlib.seed())
     tables = rel.gen_tables(rep, "C02-gent")
     d1 = rel.gen_select(rep, "C02-gen1", 1)
-    nsim, k = (120, 60) if tier == "quick" else (500, 30)
+    nsim, k = (120, 60) if tier == "quick" else (180, 30)
     deep = rel.gen_select(rep, "C02-gensim", 3, simulate=nsim, seed=vlib.seed() + 17, sample_k=k)
     deep = [p for p in deep if p["d"] >= 2]
     gj = rel.gen("GenJoin", {"What": '"queries"', "MaxRows": 2, "MaxVal": 1}, "C02-genj")
     rep.add_tlc(gj, "GEN GenJoin queries")
     joins = [{"q": p["q"], "tag": "/".join(p["tag"])} for p in gj.printed if "q" in p]
-    ndb = 3 if tier == "quick" else 6
+    ndb = 3 if tier == "quick" else 4
     dbs = rel.pick_dbs(tables, rng, max(ndb, 5))
     run_ = rel.RelRun(rep, "optimizer")
     for qi, p in enumerate(d1 + deep + joins):
